@@ -38,6 +38,11 @@ impl FixtureDatabase {
         self.file_cache
             .insert(file_path.clone(), std::sync::Arc::new(content.to_string()));
 
+        // Version-stamped caches (available fixtures, imported fixtures, cycles) also depend on
+        // file contents (e.g. a conftest's imports), so invalidate them on every content change,
+        // not only when a definition is recorded.
+        self.invalidate_cycle_cache();
+
         // Parse the Python code
         let parsed = match parse(content, Mode::Module, "") {
             Ok(ast) => ast,
@@ -70,6 +75,9 @@ impl FixtureDatabase {
         // Skip this during initial workspace scan for performance
         if cleanup_previous {
             self.cleanup_definitions_for_file(&file_path);
+            // Removed definitions must invalidate version-stamped caches as well
+            // (an edit that only deletes fixtures records no new definition).
+            self.invalidate_cycle_cache();
         }
 
         // Check if this is a conftest.py
